@@ -10,6 +10,7 @@ CONSTANTS
   MaxLog = 3
   MaxNet = 4
   MaxEnts = 0
+  LossySend = FALSE
   SimDepth = 0
   W_CommitAnyTerm = FALSE
   W_VoteIgnoreVoted = FALSE
@@ -22,5 +23,5 @@ INIT Init
 NEXT Next
 CONSTRAINT NetBound
 VIEW view
-INVARIANTS ElectionSafety LogMatching StateMachineSafety LeaderCompleteness CommitWithinLog PersistedMatchesVolatile
+INVARIANTS ElectionSafety LogMatching StateMachineSafety LeaderCompleteness CommitWithinLog PersistedMatchesVolatile MatchSound
 PROPERTY HardStateMonotonic
